@@ -4,13 +4,20 @@ import os, re, subprocess, time
 from vlib import core
 
 PROTOS = ["tlcp", "tls12", "tls13"]
+# which functions a leak observed under a given treatment may come from (used to hand the observation to a failing table row as its input)
+LEAK_FUNCS = {"badheader2": {"tls_record_recv", "tls_decrypt_recv", "tls_recv", "tls13_recv", "tls13_do_recv"}, "badheader": {"tls_record_recv", "tls_decrypt_recv", "tls_recv", "tls13_recv", "tls13_do_recv", "tls12_record_recv", "tlcp_record_recv"},
+              "alert": {"tls_record_recv", "tls_decrypt_recv", "tls_recv", "tls13_recv", "tls13_do_recv", "tls_send_alert"},
+              "badpms": {"tlcp_do_accept", "tlcp_do_connect"},
+              "pay": {"tls_send", "tls_recv", "tls_encrypt_send", "tls_decrypt_recv", "tls13_send", "tls13_recv", "tls13_do_recv", "tls_cbc_encrypt", "tls_cbc_decrypt",
+                      "tls13_gcm_encrypt", "tls13_gcm_decrypt", "tls_record_encrypt", "tls_record_decrypt"}}
+HINTS = {}
 C19_SITE = {("tls12", "client"): "site:tls12.c:tls12_do_connect:tls_secrets_print",
             ("tls12", "server"): "site:tls12.c:tls12_do_accept:tls_secrets_print"}
 
 
 def build():
     d = os.path.join(core.ROOT, "props", "C18")
-    return core.build_harness("C18hs", "asan", sources=[os.path.join(d, "hs_harness.c")], extra="-I%s -no-pie" % d)
+    return core.build_harness("C18hs", "asan", sources=[os.path.join(d, "hs_harness.c")], extra="-I%s -no-pie -Wl,--wrap=tls_pre_master_secret_generate" % d)
 
 
 def parse(o):
@@ -174,6 +181,16 @@ def c19_handshakes(ctx, leaks):
         sd = 256 * (1 + ctx.rng.below(4000))
         lines.append((p, "hs %s %d 1 -1" % (p, sd)))          # induced failure paths: a later client / server draw fails
         lines.append((p, "hs %s %d -1 2" % (p, sd)))
+    # ---- rejected / unusual inputs on a LIVE connection (keys and the last plaintext are in memory): 5 bytes of a bad record header,
+    #      a fatal alert, a PreMasterSecret with the wrong version (TLCP), payloads around and above every printer's internal thresholds
+    for p in PROTOS:
+        sd = 256 * (1 + ctx.rng.below(4000))
+        for tm in ("badheader", "badheader2", "alert"):
+            lines.append((p, "hs %s %d -1 -1 tamper=%s" % (p, sd + ctx.rng.below(200), tm)))
+        for n in ((63, 65, 257, 16384) if ctx.tier != "thorough" else (1, 63, 64, 65, 255, 256, 257, 1024, 4096, 16383, 16384)):
+            lines.append((p, "hs %s %d -1 -1 shut pay=%d" % (p, sd + ctx.rng.below(200), n)))
+    lines.append(("tlcp", "hs tlcp %d -1 -1 tamper=badpms" % (256 * (1 + ctx.rng.below(4000)))))
+    lines.append(("tlcp", "hs tlcp %d -1 -1 tamper=badpms auth" % (256 * (1 + ctx.rng.below(4000)))))
     outs, err = core.run_lines(exe, [l[1] for l in lines], shards=4)
     for (p, line), o in zip(lines, outs):
         ctx.cov["evaluations"] += 1
@@ -182,12 +199,15 @@ def c19_handshakes(ctx, leaks):
         if not r:
             ctx.notes.append("handshake capture: `%s` -> %s" % (line, o[:120]))
             continue
-        path = "success" if line.endswith("-1 -1") else "induced-failure"
+        mt = re.search(r"tamper=(\w+)", line)
+        mp = re.search(r"pay=(\d+)", line)
+        path = ("rejected-" + mt.group(1)) if mt else (("payload-%s" % ("<=64" if int(mp.group(1)) <= 64 else ("<=256" if int(mp.group(1)) <= 256 else ">256"))) if mp else ("success" if line.endswith("-1 -1") else "induced-failure"))
         for role in ("client", "server"):
             me = r[role]
             if me["leak"] != "none":
                 key = C19_SITE.get((p, role), "leak:hs:%s:%s:%s" % (p, role, me["leak"].split(":")[0]))
                 leaks.setdefault(key, (line, "%s role: LEAK secret=%s captured=%d bytes on fd 1/2" % (role, me["leak"], me["cap"])))
+                HINTS[key] = LEAK_FUNCS.get(mt.group(1) if mt else ("pay" if mp else ""), set()) | {"%s_do_%s" % (p, "connect" if role == "client" else "accept")}
             elif me["rc"] != -99:
                 ctx.cell("diag:handshake-%s:%s:%s:%s" % (p, role, path, "ok" if me["rc"] == 1 else "ERR"))
     ctx.notes.append("handshake capture: %d runs (3 protocols x 2 roles, success and induced-failure paths) in %.1fs" % (len(lines), time.time() - t0))
